@@ -806,6 +806,57 @@ func Main(args []string, t *testing.T) int {
 		return replayMain(args[1:], t)
 	case "shrink":
 		return shrinkMain(args[1:], t)
+	case "detcheck":
+		// determinism campaign: N seeds x 3 executions in separate processes at GOMAXPROCS 1, 4, 16
+		fs := flag.NewFlagSet("detcheck", flag.ContinueOnError)
+		prop := fs.String("prop", "", "")
+		tier := fs.String("tier", "quick", "")
+		seed := fs.Uint64("seed", 1, "")
+		n := fs.Int("runs", 40, "")
+		from := fs.Int("from", 0, "")
+		if fs.Parse(args[1:]) != nil {
+			return 2
+		}
+		scratch, _ := os.MkdirTemp("", "kvsim-det-")
+		defer os.RemoveAll(scratch)
+		var only []string
+		for i := 0; i < *n; i++ {
+			only = append(only, fmt.Sprint(*from+i))
+		}
+		var res []map[int]string
+		for k, g := range []int{1, 4, 16} {
+			out := filepath.Join(scratch, fmt.Sprintf("d%d.jsonl", k))
+			cmd := exec.Command(self(), "worker", "-prop", *prop, "-tier", *tier, "-seed", fmt.Sprint(*seed), "-only", strings.Join(only, ","), "-hashes", "-out", out)
+			cmd.Env = append(os.Environ(), fmt.Sprintf("GOMAXPROCS=%d", g))
+			if ob, err := cmd.CombinedOutput(); err != nil {
+				fmt.Printf("detcheck %s: worker at GOMAXPROCS=%d failed: %v %s\n", *prop, g, err, tail(string(ob), 800))
+				return 2
+			}
+			m := map[int]string{}
+			f, _ := os.Open(out)
+			sc := bufio.NewScanner(f)
+			sc.Buffer(make([]byte, 1<<20), 1<<26)
+			for sc.Scan() {
+				var l wline
+				if json.Unmarshal(sc.Bytes(), &l) == nil && l.T == "res" {
+					m[l.Run] = fmt.Sprintf("%s/%d", l.H, l.Ev)
+				}
+			}
+			f.Close()
+			res = append(res, m)
+		}
+		bad := 0
+		for r, h := range res[0] {
+			if res[1][r] != h || res[2][r] != h {
+				bad++
+				fmt.Printf("detcheck %s: run %d differs: %s | %s | %s\n", *prop, r, h, res[1][r], res[2][r])
+			}
+		}
+		fmt.Printf("detcheck %s: %d runs x 3 executions (GOMAXPROCS 1,4,16): %d mismatches\n", *prop, len(res[0]), bad)
+		if bad > 0 {
+			return 1
+		}
+		return 0
 	case "show":
 		fs := flag.NewFlagSet("show", flag.ContinueOnError)
 		prop := fs.String("prop", "", "")
